@@ -20,6 +20,10 @@ fn main() {
     compare(&args[2], &args[3]);
     return;
   }
+  if args[1] == "fcprobe" {
+    fcheck::probe();
+    return;
+  }
   if args[1] == "fcdump" {
     fcheck::dump(&args[2..]);
     return;
@@ -80,6 +84,7 @@ fn main() {
     "c20" => props::c20::run(&cfg),
     "c07" => props::c07::run(&cfg),
     "c09" => props::c09::run(&cfg),
+    "c12" => props::c12::run(&cfg),
     _ => {
       eprintln!("unknown property {}", prop);
       std::process::exit(2);
